@@ -67,7 +67,7 @@ def essence(st: Any) -> list:
 
 
 def h_roundtrip(ctx: Any, code: str, n: int, script: str, stacks: Any, decimal: bool = False,
-                trim: bool = True, corrupt: bool = True) -> None:
+                trim: bool = True, corrupt: bool = True, unknown_seat: int = -1) -> None:
     from pokerkit.notation import HandHistory
     C.native_hands()
     C.set_deck_order('identity')
@@ -83,7 +83,8 @@ def h_roundtrip(ctx: Any, code: str, n: int, script: str, stacks: Any, decimal: 
             cfg.update(small_bet=conv(4), big_bet=conv(8))
         else:
             cfg['min_bet'] = conv(4)
-    autos = tuple(a for a in Automation if a != Automation.HOLE_CARDS_SHOWING_OR_MUCKING)
+    autos = tuple(a for a in Automation if a != Automation.HOLE_CARDS_SHOWING_OR_MUCKING
+                  and not (unknown_seat >= 0 and a == Automation.HOLE_DEALING))
     cfg['automations'] = autos
     game = C.make_game(code, cfg)
     st = game(stacks, n)
@@ -106,6 +107,14 @@ def h_roundtrip(ctx: Any, code: str, n: int, script: str, stacks: Any, decimal: 
                 ctx.cover('commentary')
             else:
                 decide(st, ch)
+        elif st.can_deal_hole():
+            if st.hole_dealee_index == unknown_seat and not st.hole_dealing_statuses[unknown_seat][0]:
+                st.deal_hole('??')          # face-down cards of a player that the recorder does not know
+                ctx.cover('unknown-cards')
+            else:
+                st.deal_hole()
+        elif st.showdown_index is not None and st.showdown_index == unknown_seat:
+            st.show_or_muck_hole_cards(False)
         elif st.showdown_index is not None:
             m = ctx.choice(f'sd{guard}', 3) if aspect == 2 else 0
             idx = st.showdown_index
@@ -333,6 +342,10 @@ def jobs(tier: str, seed: int) -> list[dict]:
     out.append(dict(name='roundtrip/NT/n2/decimal', fn='h_roundtrip', traced=False,
                     params=dict(code='NT', n=2, script='rc', stacks=(61, 61), decimal=True), budget_s=B,
                     must_cover=['round-trip']))
+    for code, n, stacks, script in (('NT', 2, (60, 60), 'cc'), ('F7S', 2, (60, 60), 'bc'), ('N2L1D', 2, (60, 60), 'ccds')):
+        out.append(dict(name=f'roundtrip/{code}/n{n}/{script}/unknown-cards', fn='h_roundtrip', traced=False,
+                        params=dict(code=code, n=n, script=script, stacks=stacks, unknown_seat=0), budget_s=B,
+                        must_cover=['round-trip', 'unknown-cards']))
     out.append(dict(name='strings/smt', kind='native', fn='smt_strings', params=dict(budget_s=120), budget_s=B))
     out.append(dict(name='known/F10', kind='native', fn='known_f10', params={}, budget_s=30))
     return out
